@@ -27,8 +27,11 @@ rc_patched=$(run_demo patched)
 tests="skipped"
 if [ -z "$skip" ]; then
   mkdir -p $w/ttmp
-  out=$(TEST_TMPDIR=$w/ttmp ctest --test-dir $w/patched/_b -j8 --timeout 900 2>&1 | tail -5)
+  out=$(TEST_TMPDIR=$w/ttmp ctest --test-dir $w/patched/_b -j6 --timeout 1500 2>&1 | tail -14)
   tests=$(echo "$out" | grep -o "[0-9]*% tests passed, [0-9]* tests failed out of [0-9]*" | head -1)
+  if [ -z "$tests" ]; then tests="no summary: $(echo "$out" | tr '\n' ' ' | cut -c1-300)"; fi
+  failed=$(echo "$out" | grep -A8 "The following tests FAILED" | grep -o "[0-9]* - [a-z_0-9]*" | tr '\n' ',')
+  if [ -n "$failed" ]; then tests="$tests; failed: $failed"; fi
 fi
 echo "CONFIRM $seed: clean_demo=$rc_clean patched_demo=$rc_patched tests=[$tests]"
 tail -3 $w/demo-patched.log | sed 's/^/    patched demo: /'
